@@ -427,7 +427,9 @@ func (g *gen) histCrashCont(kinds []string) {
 	}
 	for i := 0; i < 6; i++ {
 		g.update(func(t *hx.Tx) {
-			if i == 1+g.hist%3 {
+			// (in a third of the histories the very first commit is the one that
+			// rotates: what the crash left at the tail is then never overwritten)
+			if i == g.hist%3 {
 				t.Put("b1", []byte("kz"), big, 0)
 			} else {
 				g.mutOne(t, kinds)
